@@ -7,12 +7,12 @@ EXPLANATION = ("U1 panic-source cone (MIR call graph) from the eight public cons
                "driver loop (what lies behind them is driven by server data and decided by C11): every diverging call, Assert terminator "
                "and may-panic external call must be absent or reviewed in rules/triage/C18.tsv; U2 all paths of the TCP constructor: the "
                "address connected to is `<host>:<port>` with host = the URL's host, or localhost when it is absent or empty, and port = "
-               "the URL's port, else 389 for ldap and 636 for ldaps; any other scheme returns UnknownScheme; ldapi goes to the Unix "
+               "the URL's port, else 389 for ldap and 636 for ldaps; any other scheme returns UnknownScheme; the mode of every connection handed back, read off the path's events, is the scheme's: ldaps = TLS from the first byte whatever the StartTLS setting says, ldap = StartTLS exactly when the setting is requested, cleartext otherwise (the setting as the path found it: a getter applied after builder calls is resolved by the meaning of the builder interface, not by where the test sits); ldapi goes to the Unix "
                "constructor; U3 the Unix constructor: empty path -> EmptyUnixPath, ':' in the path -> PortInUnixPath, the path is "
                "percent-decoded before connecting, a pre-opened Unix stream is accepted and a TCP/invalid one is MismatchedStreamType; the "
                "TCP constructor accepts a pre-opened TCP stream and rejects the others; U4 when a connection timeout is set the future of "
                "the whole TCP constructor (which contains StartTLS and the handshake) is wrapped in tokio::time::timeout with that duration "
-               "and expiry is propagated as an error; U6 every builder method of the settings struct, evaluated, returns `self` with exactly its own field replaced (a method that resets another field drops settings made before it in the chain). Not decided: unreachable endpoints (OS behaviour); the url crate's parser.")
+               "and expiry is propagated as an error; U6 every builder method of the settings struct, evaluated on literals in every reachable state of the struct (the states enumerated from the constructors by the builder methods themselves), leaves every other setting reading as before - StartTLS through its getter, the verification setting in the default connector - and every opaque field (timeout, connector, stream) `self`'s own; how the struct keeps its settings (a bool each, bits of a flags byte) is not read (a method that resets another setting drops what was requested before it in the chain). Not decided: unreachable endpoints (OS behaviour); the url crate's parser.")
 TRUSTED = ['url crate parsing', 'OS connect behaviour', 'rules/triage/C18.tsv']
 UNDECIDED = ['unreachable endpoints (OS)', 'exotic URL strings inside the url crate']
 ASSUMPTIONS = ['code behind the operation issue point / driver loop is driven by server data, not by URL or settings (C11)']
@@ -41,11 +41,17 @@ def one_param(ctx, f, B, what, pred):
 def check_setters(ctx, f, R):
     """U6 - "every settings combination": the settings are assembled by chaining the public builder methods, in any order, so a
     combination reaches connection setup only if every builder method leaves all the *other* settings as it found them.  Each public
-    `fn(LdapConnSettings, T) -> LdapConnSettings` is evaluated (anchors.ConnSettings.read_setter): the value it returns, taken apart
-    field by field, is `self`'s own field everywhere except in the one field that receives the argument.  A method that fills
-    another field from somewhere else (`..Default::default()` as the base of a struct-update, a constant) silently undoes what was
-    requested before it in the chain: the timeout, StartTLS, the verification setting, the caller's connector."""
+    `fn(LdapConnSettings, T) -> LdapConnSettings` is evaluated in every reachable state of the settings struct, with every argument
+    (anchors.ConnSettings: the state fields of `self` hold literals, exhaustively): afterwards every other setting *reads* as it did
+    before the call - StartTLS through the public getter, the verification setting in the default connector of the handshake helper;
+    how the struct keeps them (a bool each, one bit each of a flags byte) is not read - and every field that holds an opaque value
+    (timeout, connector, pre-opened stream) is `self`'s own.  A method that fills another setting from somewhere else
+    (`..Default::default()` as the base of a struct-update, a constant, `flags &= BIT` for `flags &= !BIT`) silently undoes what
+    was requested before it in the chain: the timeout, StartTLS, the verification setting, the caller's connector."""
     n = 0
+    bool_roles = [r for r in R.setter if r in R.BOOL]
+    # scalar state fields that no setter of a setting with a reader ever changes have no reader to be judged through: compared as they are
+    role_owned = {F for t in R.trans if R.role_of_setter.get(t['setter']) in R.BOOL for F in R.S if t['state'][F] != R.nodes[t['node']]['state'][F]}
     for p in sorted(R.effects):
         eff = R.effects[p]
         nm = p.rsplit('::', 1)[-1]
@@ -58,10 +64,70 @@ def check_setters(ctx, f, R):
         for F, t in sorted(eff['resets'].items()):
             role = R.role_of_field(F)
             lost.append('%s%s becomes %s' % (F, ' (what %s recorded)' % R.setter[role].rsplit('::', 1)[-1] if role in R.setter else '', absx.fmt(t)[:30]))
+        own_role = R.role_of_setter.get(p)
+        ts = [t for t in R.trans if t['setter'] == p]
+        # the scalar fields an unlisted bool setter distinguishes its two arguments in are its own
+        own_scalar = {F for t in ts for u in ts if t['node'] == u['node'] and t['arg'] is not u['arg'] for F in R.S if t['state'][F] != u['state'][F]} if own_role is None else set()
+        said = set()
+        for t in ts:
+            before_st = R.nodes[t['node']]['state']
+            if t['state'] == before_st:
+                continue        # the same scalar state: every reader answers what it answered before
+            for r in bool_roles:
+                if r == own_role or r in said:
+                    continue
+                b, a = R.read(r, before_st)[0], R.read(r, t['state'])
+                if a[0] is None and b is None:
+                    continue    # a reader the analysis can decide neither before nor after the call is the reader's problem (reported by C17 W4 / W7 in every state)
+                if a[0] is None or a[0] != b:
+                    said.add(r)
+                    lost.append('%s after %s: what %s recorded reads %s%s, it read %s before the call' % (
+                        t['call'], R.where(t['node']), R.setter[r].rsplit('::', 1)[-1], {True: 'true', False: 'false', None: 'undecided'}[a[0]], ' (%s)' % a[1] if a[0] is None else '', {True: 'true', False: 'false', None: 'undecided'}[b]))
+            for F in R.S:
+                if F not in role_owned and F not in own_scalar and F not in said and t['state'][F] != before_st[F]:
+                    said.add(F)
+                    lost.append('%s after %s: %s becomes %s' % (t['call'], R.where(t['node']), F, absx.fmt(t['state'][F])[:30]))
+        own = eff['own'] or (R.setter.get(own_role) and 'the %s setting' % own_role) or 'its own setting'
         ctx.add('U6.setter-preserves-other-settings', nm, where, not lost,
-                '%s() does not only set its own field `%s`: %s - what was set before it in the builder chain is silently dropped (LdapConnSettings::new().<the other setter>(x).%s(..) behaves as if <the other setter> had never been called)' % (
-                    nm, eff['own'], '; '.join(lost), nm))
+                '%s() does not only set its own setting (%s): %s - what was set before it in the builder chain is silently dropped (LdapConnSettings::new().<the other setter>(x).%s(..) behaves as if <the other setter> had never been called)' % (
+                    nm, own, '; '.join(lost), nm))
     ctx.floor('U6', 'builder methods of the settings struct evaluated', n, 2)      # without a TLS back end: set_conn_timeout, set_std_stream
+
+def check_mode(ctx, f, B, outs, sc, SETT, R):
+    """U2.mode-per-scheme - "ldap URLs connect over TCP ..., ldaps over TLS": which protection a connection gets is decided by the
+    scheme, and for `ldap` by the StartTLS setting.  On every path of the TCP constructor that hands back a connection, the mode -
+    read off the events of the path: no handshake = cleartext; the StartTLS exchange, then the handshake = StartTLS; the handshake
+    with no LDAP operation before it = TLS from the first byte - is
+        ldap,  StartTLS not requested  -> cleartext            ldap, StartTLS requested -> StartTLS
+        ldaps, whatever the setting    -> TLS from the first byte
+    An `ldaps://` URL combined with set_starttls(true) must not dial the LDAPS port and then talk cleartext LDAP to it (the StartTLS
+    request): a TLS listener answers that with an alert, an attacker in the path with whatever he likes.  The setting as the path
+    found it is read from the path condition (the getter applied to the caller's settings; a call of set_starttls in between is
+    accounted for by the builder algebra), not from where in the function the test sits."""
+    GET = R.GETTER['starttls']
+    seen = set()
+    for o in outs:
+        if not (o.kind in ('val', 'ret') and o.val[0] == 'ctor' and o.val[1] == 'Ok'):
+            continue
+        pcs = [(strip_site(a), t) for a, t in o.st.pc]
+        schemes = {a[3][1]: t for a, t in pcs if a[0] == 'bin' and a[1] == 'Eq' and a[2] == sc and a[3][0] == 'lit'}
+        scheme = 'ldap' if schemes.get('ldap') else 'ldaps' if schemes.get('ldaps') else '?'
+        asked = next((t for a, t in pcs if a[0] == 'call' and a[1] == GET and a[2] == (SETT,)), None)
+        hs = [i for i, e in enumerate(o.st.ev) if e[0] == 'call' and e[1].endswith('LdapConnAsync::create_tls_stream')]
+        ops = [(i, e) for i, e in enumerate(o.st.ev) if e[0] == 'call' and e[1].startswith('ldap3::ldap::Ldap::') and e[1] != 'ldap3::ldap::Ldap::clone' and (not hs or i < hs[0])]
+        is_starttls = lambda e: e[1] == 'ldap3::ldap::Ldap::extended' and e[2][1] in (('ctor', 'starttls::StartTLS', ()), ('const', 'ldap3::exop_impl::starttls::StartTLS'))
+        mode = 'cleartext' if not hs else 'TLS from the first byte' if not ops else 'StartTLS' if all(is_starttls(e) for i, e in ops) else 'LDAP operations in cleartext, then TLS'
+        want = 'TLS from the first byte' if scheme == 'ldaps' else {True: 'StartTLS', False: 'cleartext'}.get(asked, 'decided by the StartTLS setting') if scheme == 'ldap' else 'none (unknown scheme)'
+        key = '%s|starttls setting=%s' % (scheme, {True: 'requested', False: 'not requested', None: 'not consulted'}[asked])
+        seen.add((scheme, mode))
+        ctx.add('U2.mode-per-scheme', key, loc(B.root), mode == want,
+                'for an %s URL with the StartTLS setting %s the TCP constructor hands back a connection in mode "%s"; the scheme calls for "%s"%s' % (
+                    scheme, {True: 'requested', False: 'not requested', None: 'not consulted'}[asked], mode, want,
+                    ': `ldaps://` + set_starttls(true) dials the LDAPS port and sends a cleartext StartTLS request to it' if scheme == 'ldaps' and mode == 'StartTLS' else ''))
+    needs = [('ldap', 'cleartext')] + ([('ldap', 'StartTLS'), ('ldaps', 'TLS from the first byte')] if R.TS in f.hir else [])
+    for need in needs:
+        ctx.add('U2.mode-coverage', '%s|%s' % need, loc(B.root), need in seen, 'no path of the TCP constructor hands back an %s connection in mode "%s"' % need)
+
 
 def run(ctx):
     f = ctx.facts
@@ -97,7 +163,9 @@ def run(ctx):
     is_url = lambda t: t == 'url::Url'
     is_settings = lambda t: t == R.ST
     B = hirq.Body(f, f.body(AC + 'new_tcp'))
-    outs = absx.Interp(f, B, unroll=1, combinators=True).run(root=B.root['body'] if B.root['k'] == 'Closure' else B.root)
+    # (R.algebra: `settings.starttls()` after `settings = settings.set_starttls(false)` answers false - the meaning of the builder
+    # interface, established by U6 / C17 W7 for every reachable state of the struct - wherever in the function the test sits)
+    outs = absx.Interp(f, B, unroll=1, combinators=True, summaries=[R.algebra]).run(root=B.root['body'] if B.root['k'] == 'Closure' else B.root)
     URL, SETT = one_param(ctx, f, B, '&Url', is_url), one_param(ctx, f, B, 'LdapConnSettings', is_settings)
     hs = ('call', 'url::Url::host_str', (URL,), None)
     pt = ('call', 'url::Url::port', (URL,), None)
@@ -139,6 +207,7 @@ def run(ctx):
         seen.add(key)
         ctx.add('U2.address', key, loc(con[0][3]), ok, 'connects to an address built from %s; expected host %s and port %s' % ([absx.fmt(x)[:40] for x in got], absx.fmt(exp_host)[:40], absx.fmt(exp_port)))
     ctx.floor('U2', 'connecting paths', n_conn, 8)
+    check_mode(ctx, f, B, outs, sc, SETT, R)
     has_tls = (AC + 'create_tls_stream') in f.hir
     needs = ['unknown-scheme', 'ldap|host=url|port=default', 'ldap|host=missing|port=default', 'ldap|host=url|port=url']
     if has_tls:
